@@ -61,7 +61,9 @@ func safeWrite(op string) bool {
 	return true
 }
 
-func clusterProgram(rng *rand.Rand, prog []string) []string { return clusterProgramOpt(rng, prog, false) }
+func clusterProgram(rng *rand.Rand, prog []string) []string {
+	return clusterProgramOpt(rng, prog, false)
+}
 
 func clusterProgramOpt(rng *rand.Rand, prog []string, crashes bool) []string {
 	notif := "1"
